@@ -172,11 +172,11 @@ func (d *decoder) decode(v interface{}) error {
 						var err error
 						if tlv8 == "-" {
 							// unnamed slices are inline encoded
-							err = d.decode(v)
-							if isEmptyStruct(v) {
-								// step out of loop
+							if !d.r.hasAny(tagsOf(valueType.Elem())) {
+								// no item of another element left, step out of loop
 								break
 							}
+							err = d.decode(v)
 						} else {
 							b, e := d.r.readBytes(tag)
 							if e == io.EOF {
@@ -260,6 +260,23 @@ func (e *InvalidUnmarshalError) Error() string {
 	}
 
 	return "tlv8: Unmarshal(nil " + e.Type.String() + ")"
+}
+
+// tagsOf returns the tlv8 tags of the fields of struct type t.
+func tagsOf(t reflect.Type) []byte {
+	var tags []byte
+	if t.Kind() == reflect.Ptr {
+		t = t.Elem()
+	}
+	if t.Kind() != reflect.Struct {
+		return tags
+	}
+	for i := 0; i < t.NumField(); i++ {
+		if tlv8, ok := t.Field(i).Tag.Lookup("tlv8"); ok && tlv8 != "-" {
+			tags = append(tags, uint8(to.Uint64(strings.Split(tlv8, ",")[0])))
+		}
+	}
+	return tags
 }
 
 func isEmptyStruct(v interface{}) bool {
